@@ -206,6 +206,12 @@ def compare_ir(case_ir, got, policy, per_param_tags=None):
             _cmp_entry("ret:", "return_type", er, gr, rt, policy, out, is_return=True)
     if policy.summary and ws(case_ir["doc"]) != ws(got.get("doc")):
         out.append(Disc("summary", "doc", "expected %r got %r" % (case_ir["doc"], got.get("doc"))))
+    elif policy.summary == "lines":
+        # a summary of several short lines is not a paragraph to re-flow: the lines themselves are kept
+        el = [ws(l) for l in (case_ir["doc"] or "").split("\n") if ws(l)]
+        gl = [ws(l) for l in (got.get("doc") or "").split("\n") if ws(l)]
+        if len(el) > 1 and all(len(l) < 80 for l in el) and el != gl:
+            out.append(Disc("summary:lines", "doc", "expected lines %r got %r" % (el, gl)))
     return out
 
 
